@@ -3,7 +3,7 @@ from .C01 import ROUTER_TB
 
 CFG = {
     "harness": "openapi",
-    "coq_header": "From DS Require Import Base Versions Router RouterSpec OpenApiGen RefClosure.\nFrom DSR Require Import Run_C06.",
+    "coq_header": "From DS Require Import Base Versions Router RouterSpec OpenApiGen DocTags RefClosure.\nFrom DSR Require Import Run_C06.",
     "case_type": "dcase",
     "judge": "judge",
     "rule": "route tables from the router grammar (conflict-free stream; tables that registration refuses are C02's "
@@ -11,8 +11,10 @@ CFG = {
             "(dynamic-schema device) full of shared, nested and recursive $refs, half of them referenceable; "
             "registered in one order and in a shuffled or reversed order. For every version of a 7-chain the "
             "document is written (twice, and for the permuted registration) and read back: (path, method, "
-            "operationId) of every operation, every $ref string, every components key, byte equality of the three "
-            "writes; and lookup_route answers each endpoint's own witness request at that version. One case = one "
+            "operationId) of every operation, every $ref string, every components key, the names of the top-level tag "
+            "array in order and every operation's tag array, byte equality of the three writes (three quarters of the "
+            "tables carry tags drawn from a pool with case-only variants, prefix pairs, a non-ASCII and an empty name, "
+            "some of them defined by the tag configuration); and lookup_route answers each endpoint's own witness request at that version. One case = one "
             "table with all versions; non-trivial: at least two endpoints; distinct by case content. A second stream "
             "(group deps) gives a query parameter a schema that refers into a random definition graph (chains, "
             "branching, cycles, unreachable definitions) and compares the keys found under components.schemas with "
@@ -34,7 +36,9 @@ CFG = {
                 "share (path, method); unpublished endpoints are omitted yet still served; the operation set does not "
                 "depend on registration order; what is documented at v is what lookup serves at v; the definitions gathered for a parameter schema "
                 "(ReferenceVisitor) are closed under references, contain the schema's own references and only reachable "
-                "names, and fail only on an undefined name. Proved by mutual "
+                "names, and fail only on an undefined name; the top-level tag array is the strictly increasing (byte order) "
+                "enumeration of the configured names and the tags of the endpoints served at v, hence independent of "
+                "registration order and of hash-container iteration order. Proved by mutual "
                 "induction over the trie (walk = routes) on top of the C01 refinement. Correspondence with the real "
                 "gen_openapi on generated tables x every chain version, judged in Coq; reference closure ($ref "
                 "resolves inside the document), byte identity across registration permutations and repeated "
